@@ -10,6 +10,7 @@ def conditions(tier):
         cs.append(dict(module=H, func="_nest3_" + s, cases=128, what="depth 3: 8 mode assignments x 16 closure / evaluation patterns; " + pin, timeout={"quick": 240, "thorough": 900}))
     for n in (2, 3, 4, 5):
         cs.append(dict(module=H, func="_ftba%d" % n, cases=(2 ** n) * (3 ** (n - 1)), what="find_top_boxed_args on %d arguments: symbolic box/non-box pattern and trace ids" % n, timeout={"quick": 120, "thorough": 600}))
+    cs.append(dict(module="vf.ch.h_c19", func="_fault", cases=144, what="an inner differentiation fails and is caught INSIDE an enclosing differentiated function, which then continues with further nested differentiations", timeout={"quick": 300, "thorough": 900}))
     cs.append(dict(module="vf.ch.h_c19", func="_absolute_id_planted", expect="counterexample", what="planted defect: tracer made to depend on an absolute trace id"))
     return cs
 
